@@ -163,6 +163,27 @@ class Out:
         }
 
 
+def pure_call(out, key, fn, *args, **kwargs):
+    """call a function that must not modify its arguments: ndarray / tensor arguments are snapshotted before the call and
+    compared afterwards (an in-place update of the caller's array is invisible in the returned value of a single call)"""
+    def snap(a):
+        if isinstance(a, np.ndarray):
+            return a.copy()
+        if hasattr(a, 'detach') and hasattr(a, 'clone'):
+            return a.detach().clone()
+        return None
+    before = [snap(a) for a in args]
+    kbefore = {k: snap(v) for k, v in kwargs.items()}
+    ret = fn(*args, **kwargs)
+    for i, (a, b) in enumerate(list(zip(args, before)) + [(kwargs[k], kbefore[k]) for k in kwargs]):
+        if b is None:
+            continue
+        same = (tuple(a.shape) == tuple(b.shape)) and bool((a == b).all() if a.size else True)
+        if not same and not (isinstance(a, np.ndarray) and a.dtype.kind in 'fc' and np.array_equal(a, b, equal_nan=True)):
+            out.violation(key + '/argument_modified', '%s modified its argument %d in place' % (getattr(fn, '__name__', 'function'), i), argument_before=b, argument_after=a)
+    return ret
+
+
 class Rejected(Exception):
     """raised by a check when the input is outside the admissible domain"""
 
